@@ -132,6 +132,7 @@ package tags
 // ---- for / tablerow render closure: the else branch renders exactly when nothing is selected
 
 //@ func tags.makeIterator
+//@ unverified
 //@ props C11 C18 C02 C01
 //@ ensures nilcase: value == nil ==> result == nil
 
